@@ -37,8 +37,10 @@ theorem needParen_frame {ps ps1 : PrintState} {t : Tk} {b : Bool} {o : Nat} (h :
   · cases h
   · cases h; exact ⟨rfl, rfl⟩
 
-theorem compactSep_frame (ps : PrintState) (s i) : Frame ps (compactSep ps s i) := by
-  unfold compactSep; split <;> (try split) <;> exact ⟨rfl, rfl⟩
+theorem compactSep_frame (ps : PrintState) (s i fb) : Frame ps (compactSep ps s i fb) := by
+  unfold compactSep; dsimp only; split
+  · exact ⟨rfl, rfl⟩
+  · exact ⟨by simp, by simp⟩
 
 theorem longFormSep_frame (ps : PrintState) (s i) : Frame ps (longFormSep ps s i) := by
   unfold longFormSep
@@ -123,7 +125,7 @@ theorem printNode_frame (tbl : Nat → Bool) : ∀ (n : Node) (ps ps' : PrintSta
         dsimp only at h
         split at h
         · cases h
-        · have f3 := printHead_frame tbl l _ _ h; fr_close
+        · have f3 := printHead_frame tbl _ l _ _ h; fr_close
         · have f3 := printBlock_frame tbl l _ _ h; fr_close
   | .builtin _ params, ps, ps', h => by
     unfold printNode at h
@@ -194,9 +196,13 @@ theorem printO_frame (tbl : Nat → Bool) : ∀ (o : Option Node) (ps ps' : Prin
   | none, _, _, h => by unfold printO at h; cases h
   | some n, ps, ps', h => by unfold printO at h; exact printNode_frame tbl n _ _ h
 
-theorem printHead_frame (tbl : Nat → Bool) : ∀ (l : List (Option Node)) (ps ps' : PrintState), printHead tbl l ps = .ok ps' → Frame ps ps'
+theorem printHead_frame (tbl : Nat → Bool) (sk : Bool) : ∀ (l : List (Option Node)) (ps ps' : PrintState), printHead tbl sk l ps = .ok ps' → Frame ps ps'
   | [], _, _, h => by unfold printHead at h; cases h; exact Frame.refl _
-  | x :: _, ps, ps', h => by unfold printHead at h; exact printO_frame tbl x _ _ h
+  | x :: xs, ps, ps', h => by
+    unfold printHead at h
+    split at h
+    · exact printHead_frame tbl sk xs _ _ h
+    · exact printO_frame tbl x _ _ h
 
 theorem printList_frame (tbl : Nat → Bool) : ∀ (l : List (Option Node)) (ps : PrintState) (i : Nat) (ps' : PrintState),
     printList tbl l ps i = .ok ps' → Frame ps ps'
@@ -253,7 +259,7 @@ theorem printStmtLoop_frame (tbl : Nat → Bool) : ∀ (l : List (Option Node)) 
       · next _ heq =>
         have f := printO_frame tbl x _ _ heq
         have f2 := printStmtLoop_frame tbl xs _ _ _ h
-        have f3 := compactSep_frame ps x i
+        have f3 := fun fb => compactSep_frame ps x i fb
         have f4 := longFormSep_frame ps x i
         fr_close
 
